@@ -75,6 +75,7 @@ type smCase struct {
 	profile   int
 	raceTaken [2]int
 	pending   [][2]string
+	forced    *smForced // scripted op (exhaustive small universes of the thorough tier)
 	deleted   map[int64]bool // streams whose completion DeleteStream accepted (current map generation)
 	acceptedI map[int64]bool // streams AcceptStream returned
 	peerOpen  [2]int64       // number of streams the peer has opened (highest accepted frame)
@@ -661,14 +662,26 @@ func (c *smCase) ext(f func()) (frames []quic.VerifSMFrame, frameEnd, createdFro
 	return c.v.Frames(f0), c.v.NumFrames(), c0
 }
 
+// smForced fixes the choices of one doOp call.
+type smForced struct {
+	k   int // op kind, as the ranges of doOp's switch
+	id  int64
+	uni bool
+	n   int64 // MAX_STREAMS: increment over the current limit
+	idx int   // which blocked caller to cancel (-1: the newest)
+}
+
 func (c *smCase) doOp() {
 	r := c.r
 	v := c.v
-	if r.Chance(1, 14) && c.tryRace() {
+	f := c.forced
+	if f == nil && r.Chance(1, 14) && c.tryRace() {
 		return
 	}
 	k := r.Intn(100)
 	switch {
+	case f != nil:
+		k = f.k
 	case c.profile == 1 && r.Chance(3, 5): // outgoing-heavy: Open, OpenSync, cancels, MAX_STREAMS
 		k = 60 + r.Intn(36)
 	case c.profile == 2 && r.Chance(3, 5): // incoming-heavy: receive-side frames, completions, Accept
@@ -677,10 +690,10 @@ func (c *smCase) doOp() {
 			k += 12
 		}
 	}
-	if k >= 98 && r.Chance(1, 2) {
+	if f == nil && k >= 98 && r.Chance(1, 2) {
 		k = r.Intn(98)
 	}
-	if c.closed {
+	if f == nil && c.closed {
 		// CloseWithError is the connection's last act: the run loop has ended, no peer frame
 		// is handled any more; the application may still call Open/Accept and complete streams.
 		// (GetOrOpenStream after CloseWithError would panic: send on the closed newStreamChan.)
@@ -689,6 +702,9 @@ func (c *smCase) doOp() {
 	switch {
 	case k < 22: // receive-side frame (STREAM, RESET_STREAM, STREAM_DATA_BLOCKED)
 		id := c.pickID(1)
+		if f != nil {
+			id = f.id
+		}
 		var got int64
 		var e, e2 int
 		fr, fe, cf := c.ext(func() {
@@ -737,6 +753,9 @@ func (c *smCase) doOp() {
 		} else {
 			id = c.pickID(0)
 		}
+		if f != nil {
+			id = f.id
+		}
 		var e int
 		fr, fe, cf := c.ext(func() { e = v.Delete(id) })
 		c.monDelete(id, e)
@@ -747,6 +766,9 @@ func (c *smCase) doOp() {
 		c.collect(fe, cf)
 	case k < 60: // AcceptStream
 		uni := r.Bool()
+		if f != nil {
+			uni = f.uni
+		}
 		x := &smCaller{uni: uni, gen: c.gen, accept: true}
 		ctx, cancel := context.WithCancel(context.Background())
 		x.cancel = cancel
@@ -766,6 +788,9 @@ func (c *smCase) doOp() {
 		c.collect(fe, cf)
 	case k < 68: // OpenStream
 		uni := r.Bool()
+		if f != nil {
+			uni = f.uni
+		}
 		var id int64
 		var e int
 		fr, fe, cf := c.ext(func() { id, e = v.Open(uni) })
@@ -785,6 +810,9 @@ func (c *smCase) doOp() {
 	case k < 80: // OpenStreamSync
 		uni := r.Bool()
 		pre := r.Chance(1, 10)
+		if f != nil {
+			uni, pre = f.uni, false
+		}
 		x := &smCaller{uni: uni, gen: c.gen, w: c.nextW}
 		c.nextW++
 		ctx, cancel := context.WithCancel(context.Background())
@@ -820,6 +848,12 @@ func (c *smCase) doOp() {
 			return
 		}
 		x := c.waiters[r.Intn(len(c.waiters))]
+		if f != nil {
+			x = c.waiters[0]
+			if f.idx < 0 {
+				x = c.waiters[len(c.waiters)-1]
+			}
+		}
 		fr, fe, cf := c.ext(func() { x.cancel() })
 		if !x.finished.Load() {
 			c.monfail("cancel/still-blocked", fmt.Sprintf("OpenStreamSync waiter %d did not return after its context was cancelled", x.w))
@@ -857,6 +891,10 @@ func (c *smCase) doOp() {
 		n := c.peerMax[t] + r.Pick(-1, 0, 1, 1, 1, 2, 2, 3, 5)
 		if r.Chance(1, 12) {
 			n = r.Pick(0, 1, 1<<60, 1<<60-1)
+		}
+		if f != nil {
+			uni, t = f.uni, b2i(f.uni)
+			n = c.peerMax[t] + f.n
 		}
 		if n < 0 {
 			n = 0
@@ -990,7 +1028,56 @@ func (c *smCase) snapOut(s quic.VerifSMOut) string {
 	return u.Pair(u.Z(s.Next), u.Z(s.Max), u.B(s.BlockedSent), u.ZList(s.Streams), u.List(q), u.B(s.Closed))
 }
 
-func runSMCase(w *bufio.Writer, r *u.Rng, dist map[string]int) {
+// smScript: one history of a small universe. Symbols (all on bidirectional streams):
+// 0 frame for the next stream the peer may open, 1 frame for the one after it (skips one),
+// 2 AcceptStream, 3 / 4 complete the lowest / highest open peer stream,
+// 5 OpenStream, 6 OpenStreamSync, 7 / 8 cancel the oldest / newest blocked caller,
+// 9 / 10 MAX_STREAMS +1 / +2.
+type smScript struct {
+	client bool
+	maxIn  int64
+	ops    []int
+}
+
+func (c *smCase) resolve(code int) *smForced {
+	in := c.v.SnapIn(false)
+	first := smFirst(false, !c.client)
+	pick := func(highest bool) int64 {
+		id := first
+		found := false
+		for _, s := range in.Streams {
+			if s[1] == 0 && (!found || highest) {
+				id, found = s[0], true
+			}
+		}
+		return id
+	}
+	switch code {
+	case 0:
+		return &smForced{k: 0, id: in.NextOpen}
+	case 1:
+		return &smForced{k: 0, id: in.NextOpen + 4}
+	case 2:
+		return &smForced{k: 50}
+	case 3:
+		return &smForced{k: 34, id: pick(false)}
+	case 4:
+		return &smForced{k: 34, id: pick(true)}
+	case 5:
+		return &smForced{k: 60}
+	case 6:
+		return &smForced{k: 68}
+	case 7:
+		return &smForced{k: 80}
+	case 8:
+		return &smForced{k: 80, idx: -1}
+	case 9:
+		return &smForced{k: 88, n: 1}
+	}
+	return &smForced{k: 88, n: 2}
+}
+
+func runSMCase(w *bufio.Writer, r *u.Rng, dist map[string]int, script *smScript) {
 	c := &smCase{w: w, r: r, failed: map[string]bool{}, deleted: map[int64]bool{}, acceptedI: map[int64]bool{}}
 	c.client = r.Bool()
 	lim := func() int64 {
@@ -1000,6 +1087,10 @@ func runSMCase(w *bufio.Writer, r *u.Rng, dist map[string]int) {
 		return r.Pick(0, 1, 1, 2, 2, 3, 4, 100)
 	}
 	c.maxIn = [2]int64{lim(), lim()}
+	if script != nil {
+		c.client = script.client
+		c.maxIn = [2]int64{script.maxIn, 1}
+	}
 	c.advIn = c.maxIn
 	c.blockedAt = [2]map[int64]bool{{}, {}}
 	nops := r.Range(4, 36)
@@ -1022,7 +1113,7 @@ func runSMCase(w *bufio.Writer, r *u.Rng, dist map[string]int) {
 			c.flush()
 		}()
 		c.v = quic.NewVerifSM(c.client, uint64(c.maxIn[0]), uint64(c.maxIn[1]))
-		if r.Chance(2, 3) { // most connections learn the peer's limits before anything else
+		if script == nil && r.Chance(2, 3) { // most connections learn the peer's limits before anything else
 			nb, nu := r.Pick(0, 1, 2, 3, 5), r.Pick(0, 1, 2, 3, 5)
 			c.peerMax = [2]int64{nb, nu}
 			fr, fe, cf := c.ext(func() { c.v.TransportParams(nb, nu) })
@@ -1030,6 +1121,19 @@ func runSMCase(w *bufio.Writer, r *u.Rng, dist map[string]int) {
 			c.collect(fe, cf)
 		}
 		c.flush()
+		if script != nil {
+			nops = 0
+			for _, code := range script.ops {
+				if len(c.failed) != 0 {
+					break
+				}
+				c.forced = c.resolve(code)
+				c.doOp()
+				c.monState()
+				c.monCredit()
+				c.flush()
+			}
+		}
 		for i := 0; i < nops && len(c.failed) == 0; i++ {
 			c.doOp()
 			c.monState()
@@ -1043,6 +1147,9 @@ func runSMCase(w *bufio.Writer, r *u.Rng, dist map[string]int) {
 			nt = 1
 		}
 		fmt.Fprintf(w, "CASE %d %s\n", nt, final)
+		if script != nil {
+			dist["exhaustive-cases"]++
+		}
 		if dist["cases"] == 0 {
 			fmt.Fprintf(w, "SAMPLE\tclient=%v maxBidi=%d maxUni=%d: %s\n", c.client, c.maxIn[0], c.maxIn[1], strings.Join(c.desc, " "))
 		}
@@ -1065,9 +1172,36 @@ func runStreamsMap(w *bufio.Writer, seed uint64, n int, _ []string) {
 	r := u.NewRng(seed)
 	dist := map[string]int{}
 	for i := 0; i < n; i++ {
-		runSMCase(w, r.Fork(), dist)
+		runSMCase(w, r.Fork(), dist, nil)
 	}
-	_ = os.Getenv
+	if os.Getenv("VERIF_TIER") == "thorough" {
+		// exhaustive small universes: every history of the given length (results of all
+		// prefixes are part of the case); validation of the model, not a proof
+		enum := func(client bool, maxIn int64, alphabet []int, length int) {
+			idx := make([]int, length)
+			for {
+				ops := make([]int, length)
+				for i, j := range idx {
+					ops[i] = alphabet[j]
+				}
+				runSMCase(w, r.Fork(), dist, &smScript{client: client, maxIn: maxIn, ops: ops})
+				i := length - 1
+				for ; i >= 0; i-- {
+					idx[i]++
+					if idx[i] < len(alphabet) {
+						break
+					}
+					idx[i] = 0
+				}
+				if i < 0 {
+					return
+				}
+			}
+		}
+		enum(false, 2, []int{0, 1, 2, 3, 4}, 6)
+		enum(true, 1, []int{0, 1, 2, 3, 4}, 5)
+		enum(true, 2, []int{5, 6, 7, 8, 9, 10}, 5)
+	}
 	keys := make([]string, 0, len(dist))
 	for k := range dist {
 		keys = append(keys, k)
